@@ -24,6 +24,10 @@ func fieldCell(c *Cell, name string) *Cell {
 
 func (cc *CallCtx) recvCell(i int) *Cell {
 	r := pruneRefUnder(cc.args[i].(*RefV), cc.c.g)
+	if len(r.Alts) == 0 {
+		cc.c.g = TS.False
+		return nil
+	}
 	if len(r.Alts) != 1 {
 		inconclusive("model receiver not concretized at %s: %s", cc.e.posOf(cc.c), valStr(r))
 	}
